@@ -187,6 +187,8 @@ def rnd_opts(rng, mode, comp=None, bs=None, plain=False):
     for k, pr in (("T", 0.25), ("e", 0.3), ("f", 0.2), ("long", 0.2)):
         if rng.random() < pr:
             o[k] = True
+    if rng.random() < 0.15:
+        o["q"] = False          # progress output on stdout
     if rng.random() < 0.3:
         o["j"] = rng.choice([1, 2, 3, 4, 8])
         if rng.random() < 0.5:
@@ -541,6 +543,17 @@ def names_case(rng, mode, comp):
         xa = [[nm, [["user.name", nm.encode("latin-1").hex(), "hex"]]] for i, nm in enumerate(names) if i % 4 in (0, 2) and xattr_path_ok(nm) and not nm.startswith("#")]
         body = {"mode": "packfile", "fs": fs, "lines": L, "xa": xa, "fmtseed": rng.randrange(1 << 16)}
     return case("names", "names-%s-%s" % (mode, comp), body, {"comp": comp, "bs": 4096, "k": mode == "packdir"})
+
+
+def deep_case(rng, comp):
+    """300 levels: the full path is longer than PATH_MAX (pack file only; such a tree cannot be unpacked)"""
+    fs = [{"p": "src", "t": "dir", "m": 0o755}, {"p": "src/f", "t": "file", "c": [["t", 77, 1]]}]
+    comps = ["level-%03d-%s" % (i, "x" * (i % 17)) for i in range(300)]
+    L = [{"t": "file", "p": "/" + "/".join(comps) + "/leaf", "m": 0o644, "u": 1, "g": 2, "loc": "src/f"},
+         {"t": "slink", "p": "/" + "/".join(comps[:150]) + "/sl", "m": 0o777, "u": 0, "g": 0, "tg": "../" * 100},
+         {"t": "dir", "p": "/" + "/".join(comps[:200]), "m": 0o700, "u": 3, "g": 4}]
+    return case("names", "deep-300-levels", {"mode": "packfile", "fs": fs, "lines": L, "xa": [["/".join(comps[:250]), [["user.deep", "01", "hex"]]]]},
+                {"comp": comp, "bs": 4096, "d": {"mode": 0o711, "mtime": 42}})
 
 
 def hardlink_case(rng, via, comp, nohl=False):
